@@ -1,4 +1,48 @@
 import EaselModel.Core.Proto
-/-! Line-protocol driver for the C03 model (stub: answers bad-op until the model lands). -/
-open EaselModel.Proto
-def main : IO Unit := runDriver () (fun s _ => (s, "bad-op"))
+import EaselModel.Msafile.Basic
+import EaselModel.Msafile.AbcTables
+import EaselModel.Msafile.Afa
+import EaselModel.Msafile.Dump
+import EaselModel.Msafile.Digitize
+/-! Line-protocol driver for the C03 model: `rt fmt=… abc=… <msa fields>`: build, write, read back, re-write. -/
+open EaselModel.Proto EaselModel.Msafile
+
+def abcOf (s : String) : Option (Option Abc) :=
+  if s == "text" then some none
+  else if s == "amino" then some (some abcAmino)
+  else if s == "dna" then some (some abcDna)
+  else if s == "rna" then some (some abcRna)
+  else none
+
+/-- what the harness prints after `bytes=`: declared-format read, second read, re-write -/
+def roundTrip (write : Msa → Bytes) (read : List Bytes → Res Msa × List Bytes) (m : Msa) : String :=
+  let b := write m
+  let pre := "build=ok m=" ++ m.dump ++ " wr=ok bytes=" ++ hexOrDash b ++ " open=ok"
+  match read (splitLines b) with
+  | (.ok m2, rest) =>
+    let r2 := match (read rest).1 with
+      | .ok _ => "ok" | .eof => "eof" | .eformat _ => "eformat" | .fault => "fault" | .exc => "exc"
+    pre ++ resToken (.ok m2) ++ " rd2=" ++ r2 ++ " rw=" ++ (if write m2 == b then "same" else "diff")
+  | (r, _) => pre ++ resToken r
+
+def rtOp (ws : List String) : String :=
+  match arg? ws "fmt", abcOf ((arg? ws "abc").getD "text") with
+  | some fmt, some abc =>
+    let m0 := msaOfFields ws
+    let m? : Option Msa := match abc with
+      | none => some m0
+      | some a => m0.digitize a
+    match m? with
+    | none => "build=einval"
+    | some m =>
+      if fmt == "afa" then roundTrip (afaWrite abc) (afaRead (afaCfg abc)) m
+      else "unmodelled"
+  | _, _ => "unmodelled"
+
+def step (s : Unit) (line : String) : Unit × String :=
+  let ws := words line
+  match ws with
+  | "rt" :: _ => (s, rtOp ws)
+  | _ => (s, "unmodelled")
+
+def main : IO Unit := runDriver () step
